@@ -503,6 +503,7 @@ type Clause struct {
 	Text  string
 	E     *Expr
 	Line  int
+	Props []string // non-empty: obligation only when checking one of these properties
 }
 
 type LoopSpec struct {
@@ -666,6 +667,14 @@ func mkClause(rc rawClause, path string) (*Clause, error) {
 			text = strings.TrimSpace(text[j+1:])
 		}
 	}
+	// "[label @C21,C27]": the clause is an obligation only for those properties
+	var props []string
+	if k := strings.Index(label, "@"); k >= 0 {
+		for _, p := range strings.FieldsFunc(label[k+1:], func(r rune) bool { return r == ',' || r == ' ' }) {
+			props = append(props, p)
+		}
+		label = strings.TrimSpace(label[:k])
+	}
 	e, err := parseExpr(text)
 	if err != nil {
 		return nil, fmt.Errorf("%s:%d: %v", path, rc.line, err)
@@ -673,7 +682,7 @@ func mkClause(rc rawClause, path string) (*Clause, error) {
 	if label == "" {
 		label = shortLabel(text)
 	}
-	return &Clause{Label: label, Text: text, E: e, Line: rc.line}, nil
+	return &Clause{Label: label, Text: text, E: e, Line: rc.line, Props: props}, nil
 }
 
 func shortLabel(text string) string {
